@@ -126,26 +126,26 @@ DFKconvert(void *source, void *dest, int32 ntype, int32 num_elm, int16 acc_mode,
 #define KEY_BAD (g_grp != VSIDGROUP || g_inst_null || g_w->vs == NULL)
 #define ENV_WF  (g_w != NULL && g_vs != NULL && (g_w->vs == NULL || g_w->vs == g_vs))
 #define SEEK_REFUSED (KEY_BAD || eltpos < 0 || g_vs->wlist.n <= 0)
+/* the record's byte offset is not representable (one record size W per run: VSSEEK_W) */
+#define SEEK_FAR ((long long)eltpos * (long long)VSSEEK_W > 2147483647LL)
 
 #ifndef VSSEEK_W
 #define VSSEEK_W 1
 #endif
 int32 VSseek(int32 vkey, int32 eltpos)
     __CPROVER_requires(ENV_WF && g_seek_n == 0 && (g_seek_ret == SUCCEED || g_seek_ret == FAIL))
+    __CPROVER_requires(g_vs->wlist.ivsize == VSSEEK_W) /* symbolic x symbolic products are not tractable: one W per run */
     __CPROVER_assigns(g_seek_n, g_seek_aid, g_seek_off, g_seek_origin, g_pos)
     /* negative position, bad key or a vdata without fields: FAIL, and no seek is issued */
     __CPROVER_ensures(SEEK_REFUSED ==> (__CPROVER_return_value == FAIL && g_seek_n == 0))
     /* otherwise exactly one seek, from the start, on the vdata's element ... */
-    __CPROVER_ensures(!SEEK_REFUSED ==> (g_seek_n == 1 && g_seek_aid == g_vs->aid && g_seek_origin == DF_START))
+    __CPROVER_ensures((!SEEK_REFUSED && !SEEK_FAR) ==> (g_seek_n == 1 && g_seek_aid == g_vs->aid && g_seek_origin == DF_START))
     /* ... to byte eltpos*ivsize, the true product, whenever that is a representable offset.  One record
        size W per run (symbolic x symbolic products are not tractable): W = VSSEEK_W */
-    __CPROVER_ensures((!SEEK_REFUSED && g_seek_n == 1 && g_vs->wlist.ivsize == VSSEEK_W &&
-                       (long long)eltpos * (long long)VSSEEK_W <= 2147483647LL) ==>
-                      (long long)g_seek_off == (long long)eltpos * (long long)VSSEEK_W)
+    __CPROVER_ensures((!SEEK_REFUSED && !SEEK_FAR) ==> (long long)g_seek_off == (long long)eltpos * (long long)VSSEEK_W)
     /* a record beyond the 2^31-1 byte limit cannot be addressed: refused */
-    __CPROVER_ensures((!SEEK_REFUSED && (long long)eltpos * (long long)g_vs->wlist.ivsize > 2147483647LL) ==>
-                      __CPROVER_return_value == FAIL)
-    __CPROVER_ensures(!SEEK_REFUSED ==> __CPROVER_return_value == (g_seek_ret == FAIL ? FAIL : eltpos));
+    __CPROVER_ensures((!SEEK_REFUSED && SEEK_FAR) ==> __CPROVER_return_value == FAIL)
+    __CPROVER_ensures((!SEEK_REFUSED && !SEEK_FAR) ==> __CPROVER_return_value == (g_seek_ret == FAIL ? FAIL : eltpos));
 
 #ifdef H4V_NATIVE
 #include "h4v_native_wrap.h"
@@ -183,9 +183,7 @@ h_VSseek(void)
     H4V_ND(uint16, ivsize);
     H4V_ND(int32, aid);
     H4V_ND(int32, seek_ret);
-#ifdef VSSEEK_FIX
-    H4V_ASSUME(ivsize == VSSEEK_W);
-#endif
+    ivsize = VSSEEK_W; /* one constant record size per run keeps the product concrete x symbolic */
     H4V_ASSUME(nfields >= 0 && nfields <= VSFIELDMAX);
     H4V_ASSUME(seek_ret == SUCCEED || seek_ret == FAIL);
     vs->wlist.n      = nfields;
